@@ -29,6 +29,8 @@ type Obligation struct {
 	Model   string
 	Output  string
 	ModelVs []*Term
+	Sub     []*Obligation // case split / per-return split
+	OnlySubs bool         // the obligation is the conjunction of Sub; it is not tried as a whole: tried when the whole obligation is not proved quickly
 }
 
 type FuncExec struct {
@@ -63,8 +65,11 @@ type FuncExec struct {
 	nonNil    map[int]bool
 	allocs    []allocRec
 	usesSpec  bool
+	specUsed  map[string]bool
 	loopAutos map[*ssa.BasicBlock][]autoInv
 	stableRefs map[string][]*Term
+	lastRets   []retInfo
+	varCache   map[int][]*Term
 	discLog    []discWrite
 	discLogOn  int
 }
@@ -404,7 +409,9 @@ func buildGraph(fn *ssa.Function, loops []*Loop) *graph {
 		for si, s := range n.blk.Succs {
 			it := map[*Loop]int{}
 			for l, k := range n.iters {
-				if l.body[s] {
+				// an unrolled loop's exit iteration stays part of the context: the code after the
+				// loop is then executed once per exit, as separate paths, instead of on a merged state
+				if l.body[s] || (l.spec != nil && l.spec.Unroll > 0 && l.parent == nil) {
 					it[l] = k
 				}
 			}
@@ -575,6 +582,7 @@ func (fx *FuncExec) runBody(fn *ssa.Function, st *State, reach *Term, con *Contr
 			}
 		}
 	}
+	fx.lastRets = rets
 	if len(rets) == 0 {
 		return ts.False(), st, nil
 	}
